@@ -957,7 +957,7 @@ PROPS = {
         "theorems": ["C13.C13_total", "C13.C13_type_names_exact", "C13.C13_field_names_exact", "C13.C13_interface_names_complete",
                      "C13.C13_types_complete", "C13.C13_complete", "C13.C13_types_layout", "C13.C13_layout",
                      "C13.C13_interface_names_sound", "C13.C13_sound_tree", "C13.C13_sound_text",
-                     "C13.C13_type_members_homogeneous", "C13.C13_literals"],
+                     "C13.C13_type_members_homogeneous", "C13.C13_grammars_consistent", "C13.C13_literals"],
         "run": run_idl, "trusted_base": TB_COMMON,
         "assumptions": [
             "winnow's alt / separated / literal / take_while / multispace0 and str::trim behave as ported in Zlink/Model/Idl.lean (validated by the correspondence run: identical trees / rejections on every explored text)",
@@ -974,7 +974,7 @@ PROPS = {
     },
     "C14": {
         "property_modules": ["Zlink.Properties.C14"], "lean_modules": ["Zlink.Properties.C14"],
-        "theorems": ["C14.C14_comment_roundtrip", "C14.C14_parse_render", "C14.C14_render_fixpoint", "C14.C14_exchange", "C14.renderIface_eq_refText",
+        "theorems": ["C14.C14_comment_roundtrip", "C14.C14_parse_render", "C14.C14_render_fixpoint", "C14.C14_exchange", "C14.C14_parsed_roundtrip", "C14.renderIface_eq_refText",
                      "C14.C14_commented_variant_counterexample"],
         "run": run_idlrt, "trusted_base": TB_COMMON,
         "assumptions": [
